@@ -1,6 +1,8 @@
 pub mod native;
 pub mod stdlib;
 pub mod vm;
+#[cfg(vbxq_aelys_lang_verif)]
+pub mod verif;
 
 pub use native::*;
 pub use stdlib::*;
